@@ -38,6 +38,19 @@ extern "C" const char* __asan_default_options() { return "allocator_may_return_n
 
 const char* vh_property() { return "C18"; }
 
+// ASan prints a warning line for every rejected malloc; thousands of them fill the worker's stderr pipe. Requests that are
+// expected to be rejected run with fd 2 pointed at /dev/null (a crash inside is still seen through the exit code).
+struct MuteStderr {
+  int saved = -1;
+  explicit MuteStderr(bool on = true) {
+    static int devnull = open("/dev/null", O_WRONLY);
+    if (on && devnull >= 0) { saved = dup(2); if (saved >= 0) dup2(devnull, 2); }
+  }
+  ~MuteStderr() { if (saved >= 0) { dup2(saved, 2); close(saved); } }
+  MuteStderr(const MuteStderr&) = delete;
+  MuteStderr& operator=(const MuteStderr&) = delete;
+};
+
 namespace {
 
 enum Kind : int { K_RAW, K_VEC, K_HASH, K_TREE, K_LIST, K_BITSET, K_BITVEC, K_POOL, K_ASTR, K_STR, K_ARESET, K_COUNT };
@@ -360,7 +373,7 @@ struct World {
       }
       case 6: {
         size_t size = kHugeOneshot[umod(v, countof(kHugeOneshot))];
-        void* p = a.alloc_oneshot(size);
+        void* p; { MuteStderr mute; p = a.alloc_oneshot(size); }
         VH_CHECK(ctx, p == nullptr, "huge-alloc-succeeded", "alloc_oneshot(0x%zx) returned %p", size, p);
         cls("raw.huge_rejected");
         break;
@@ -368,7 +381,7 @@ struct World {
       case 7: {
         size_t size = kHugeReusable[umod(v, countof(kHugeReusable))];
         size_t got = 0;
-        void* p = (arg(op, 5) & 1) ? a.alloc_reusable_zeroed(size, Out(got)) : a.alloc_reusable(size, Out(got));
+        void* p; { MuteStderr mute; p = (arg(op, 5) & 1) ? a.alloc_reusable_zeroed(size, Out(got)) : a.alloc_reusable(size, Out(got)); }
         VH_CHECK(ctx, p == nullptr, "huge-alloc-succeeded", "alloc_reusable(0x%zx) returned %p", size, p);
         cls("raw.huge_rejected");
         break;
@@ -448,15 +461,15 @@ struct World {
       case 6: v.clear(); if (!m.empty()) ev_removal = true; m.clear(); break;
       case 7: { size_t n = dec_count(x, y, m.size(), 40, 400, &huge); v.truncate(n); if (n < m.size()) { m.resize(n); ev_removal = true; } break; }
       case 8: case 9: { size_t n = dec_count(x, y, cap0, 40, 3000, &huge);
-        Error e = sub == 8 ? v.resize_fit(a, n) : v.resize_grow(a, n);
+        Error e; { MuteStderr mute(huge); e = sub == 8 ? v.resize_fit(a, n) : v.resize_grow(a, n); }
         if (huge) { oom(e, "resize", n); break; }
         ok(e, "resize"); if (n < m.size()) ev_removal = true; m.resize(n, T{}); break; }
       case 10: case 11: { size_t n = dec_count(x, y, cap0, 40, 3000, &huge);
-        Error e = sub == 10 ? v.reserve_fit(a, n) : v.reserve_grow(a, n);
+        Error e; { MuteStderr mute(huge); e = sub == 10 ? v.reserve_fit(a, n) : v.reserve_grow(a, n); }
         if (huge) { oom(e, "reserve", n); break; }
         ok(e, "reserve"); VH_CHECK(ctx, v.capacity() >= n, "vec-capacity", "%s.reserve(%zu) left capacity %zu", nm, n, v.capacity()); break; }
       case 12: { size_t n = dec_count(x, y, cap0 - m.size(), 40, 3000, &huge);
-        Error e = (n == 1 && (z & 1)) ? v.reserve_additional(a) : v.reserve_additional(a, n);
+        Error e; { MuteStderr mute(huge); e = (n == 1 && (z & 1)) ? v.reserve_additional(a) : v.reserve_additional(a, n); }
         if (huge) { oom(e, "reserve_additional", n); break; }
         ok(e, "reserve_additional"); VH_CHECK(ctx, v.capacity() - v.size() >= n, "vec-capacity", "%s.reserve_additional(%zu) left %zu free", nm, n, v.capacity() - v.size()); break; }
       case 13: v.swap(f.v[o]); m.swap(f.m[o]); break;
@@ -826,7 +839,7 @@ struct World {
           default: huge = true; n = kHugeCount[umod(y, countof(kHugeCount))]; break;
         }
         bool val = (z & 1) != 0;
-        Error e = b.resize(a, n, val);
+        Error e; { MuteStderr mute(huge); e = b.resize(a, n, val); }
         if (huge) {
           VH_CHECK(ctx, e == Error::kOutOfMemory, "bitset-huge-not-rejected", "resize(0x%zx) returned %u", n, unsigned(e));
           VH_CHECK(ctx, b.capacity() == cap0, "bitset-failed-op-changed-state", "failed resize changed the capacity");
@@ -1143,7 +1156,7 @@ struct World {
         }
         break; }
       case 14: { bool huge = umod(x, 8) == 7; size_t n = huge ? kHugeStr[umod(y, countof(kHugeStr))] : dec_strlen(x, y, s, false); char c = (z & 1) ? '.' : ' ';
-        Error e = (z & 2) ? s.pad_end(n, c) : (c == ' ' ? s.pad_end(n) : s.pad_end(n, c));
+        Error e; { MuteStderr mute(huge); e = (z & 2) ? s.pad_end(n, c) : (c == ' ' ? s.pad_end(n) : s.pad_end(n, c)); }
         if (huge) { oom(e, n); break; }
         ok(e); if (n > m.size()) m.append(n - m.size(), c); break; }
       case 15: { bool huge = umod(x, 8) == 7; size_t n = huge ? kHugeStr[umod(y, countof(kHugeStr))] : (umod(x, 2) ? umod(y, m.size() + 2) : dec_strlen(x, y, s, false));
@@ -1176,6 +1189,7 @@ struct World {
       case 23: { size_t n = dec_strlen(x, y, s, true); std::string d = gen_text(uint64_t(y) + 19, n); ok(s.append(d.c_str())); m += d; break; }
       default: {   // requests whose size cannot be satisfied: must be reported, content untouched
         size_t n = kHugeStr[umod(y, countof(kHugeStr))];
+        MuteStderr mute;
         switch (umod(x, 4)) {
           case 0: oom(s.append_chars('z', n), n); break;
           case 1: oom(s.assign_chars('z', n), n); break;
